@@ -34,22 +34,25 @@ def handle : List String → String
       match call with
       | some r =>
         let hdrs := encList (r.headers.map fun kv => encText kv.1 ++ "," ++ encText kv.2)
-        let spec := Spec.Gateway.decodeUrl (Model.Gateway.gatewayBase g) r.url
-        s!"ok {encText r.url} {encText r.method} {hdrs} {r.data} {r.timeout} {encOptPairs spec}"
+        let specGo := Spec.Gateway.decodeUrlGo (Model.Gateway.gatewayBase g) r.url
+        let specForm := Spec.Gateway.decodeUrl (Model.Gateway.gatewayBase g) r.url
+        s!"ok {encText r.url} {encText r.method} {hdrs} {r.data} {r.timeout} {encOptPairs specGo} {encOptPairs specForm}"
       | none => "err bad-fn"
     | _, _, _ => "err bad-field"
   | ["esc", k, v] =>
     match decText k, decText v with
     | some k, some v =>
       let e := Model.Gateway.escapeGroupingKey k v
-      s!"ok {encText e.1} {encText e.2} {encOptPairs ((Spec.Gateway.decodePair e.1 e.2).map ([·]))}"
+      s!"ok {encText e.1} {encText e.2} {encOptPairs ((Spec.Gateway.decodePairWith false e.1 e.2).map ([·]))} {encOptPairs ((Spec.Gateway.decodePairWith true e.1 e.2).map ([·]))}"
     | _, _ => "err bad-field"
+  -- both stdlib encoders (quote_plus; quote with safe='') and what the two spec decoders make of their output
   | ["quote", s] =>
     match decText s with
     | some s =>
-      let q := Model.Gateway.quotePlus s
-      let back := match Spec.Gateway.unquotePlus q with | some t => encText t | none => "-"
-      s!"ok {encText q} {back}"
+      let opt := fun (o : Option Str) => match o with | some t => encText t | none => "-"
+      let qp := Model.Gateway.quotePlus s
+      let q := Model.Gateway.quote s
+      s!"ok {encText qp} {opt (Spec.Gateway.unquotePlus qp)} {encText q} {opt (Spec.Gateway.unquote q)} {opt (Spec.Gateway.unquotePlus q)}"
     | none => "err bad-field"
   | ["b64", bs] =>
     match decBytes bs with
@@ -61,7 +64,9 @@ def handle : List String → String
   -- the spec decoders on arbitrary text (compared with CPython's lenient ones where both are defined)
   | ["unq", s] =>
     match decText s with
-    | some s => match Spec.Gateway.unquotePlus s with | some t => s!"ok {encText t}" | none => "ok -"
+    | some s =>
+      let opt := fun (o : Option Str) => match o with | some t => encText t | none => "-"
+      s!"ok {opt (Spec.Gateway.unquotePlus s)} {opt (Spec.Gateway.unquote s)}"
     | none => "err bad-field"
   | ["b64d", s] =>
     match decText s with
